@@ -76,6 +76,28 @@ func lockedServiceGoroutines(all string) []string {
 	return out
 }
 
+// holderCandidates counts goroutines of a bubble that are inside one of the functions the waiters are blocked in
+// without themselves waiting for a lock.
+func holderCandidates(all string, waiterFuncs []string) int {
+	n := 0
+	for _, g := range strings.Split(all, "\n\n") {
+		m := reGoroutine.FindStringSubmatch(g)
+		if m == nil || !strings.Contains(m[1], "synctest bubble") {
+			continue
+		}
+		if strings.Contains(m[1], "sync.Mutex.Lock") || strings.Contains(m[1], "sync.RWMutex") || strings.Contains(m[1], "semacquire") {
+			continue
+		}
+		for _, fn := range waiterFuncs {
+			if strings.Contains(g, "github.com/istio-ecosystem/authservice/"+fn+"(") {
+				n++
+				break
+			}
+		}
+	}
+	return n
+}
+
 // hangWatch runs outside any bubble for the lifetime of a worker.
 func hangWatch(report func(p *Plan, v Violation, stacks string)) {
 	var lastSeq int64 = -1
@@ -99,8 +121,12 @@ func hangWatch(report func(p *Plan, v Violation, stacks string)) {
 		n := runtime.Stack(buf, true)
 		all := string(buf[:n])
 		locked := lockedServiceGoroutines(all)
-		if len(locked) == 0 {
-			lastChange = time.Now() // not a lock wait: keep watching, the ordinary watchdog decides
+		if len(locked) == 0 || holderCandidates(all, locked) > 0 {
+			// not a lock wait - or some other goroutine of the run is inside the same function without waiting for
+			// the lock: it may be holding it across a scheduling point (e.g. across a provider call), and then it
+			// is the simulator, whose clock the waiting goroutine freezes, that cannot let the holder continue.
+			// That is not a deadlock of the service; the ordinary watchdog reports it as infrastructure (exit 2).
+			lastChange = time.Now()
 			continue
 		}
 		sig := "deadlock:blocked-on-a-lock-in:" + locked[0]
